@@ -10,8 +10,8 @@ def queries():
                             defs=['DUP=%d' % dup, 'H=%d' % h], cbmc=['--memory-leak-check'], tiers=('quick', 'thorough') if quick else ('thorough',), timeout=900 if quick else 3600, unwind=4, weight=h))
     for pre, h, quick in ((1, 3, True), (2, 3, False), (2, 4, False)):      # measured: pre1_h3 ~26 min, pre2_h3 > 30 min -> thorough
         qs.append(Query('splay_multi_pre%d_h%d' % (pre, h), 'C17_splay.cpp', 'h_splay',
-                        'SplayTree<uint8_t, less, Duplicates=true>: prefix script (insert 1,1,1%s: a run of equivalent keys), then %d symbolic operations; same checks' % (',0' if pre == 2 else '', h),
-                        defs=['DUP=1', 'H=%d' % h, 'PRE=%d' % pre], cbmc=['--memory-leak-check'], tiers=('quick', 'thorough') if quick else ('thorough',), timeout=3600 if quick else 7200, unwind=4, weight=h + 20))
+                        'SplayTree<uint8_t, less, Duplicates=true>: prefix script (insert 1,1,1%s: a run of equivalent keys), then %d symbolic operations over keys 0..%d; same checks' % (',0' if pre == 2 else '', h, 2 if quick else 3),
+                        defs=['DUP=1', 'H=%d' % h, 'PRE=%d' % pre] + (['NKEY=3'] if quick else []), cbmc=['--memory-leak-check'], tiers=('quick', 'thorough') if quick else ('thorough',), timeout=3600 if quick else 7200, unwind=4, weight=h + 20))
     for mapmode in (0, 1):
         for h in (2, 3, 4, 5):
             quick = h <= 2
